@@ -1,4 +1,4 @@
-"""Regenerate harness/props/C19_findings.json: run the thorough sweep on the unchanged /repo, attribute every failure to one
+"""Regenerate harness/props/C19_findings.json: run the thorough sweep on the tree named by PFST_REPO (default /repo), attribute every failure to one
 of the confirmed root causes below (by failure class and operand), and write one entry per root cause with the exact
 signature list and a REPLAYABLE witness (the dict `props.C19.replay` takes).  A failure that matches no rule is printed
 and NOT written: it has to be triaged by hand.
@@ -46,13 +46,25 @@ F = {
     'C19-F8': ('expr -> pattern on the formatted route keeps parentheses around a Name where the pattern grammar wants a bare name '
                '(`(f)(a)` as class, `**(r)` as mapping rest): the returned source is not a pattern',
                'C19|Call->pattern|s12/fst|no-parse'),
-    'C19-F9': ('a keyword / default named `_` (`f(a, _=v)`, arguments `a, _=1`, _arglikes `a, _=v`) coerced to a class pattern on the '
-               'formatted route gives the keyword attribute `_=...`, which is not valid pattern syntax: the returned source does not '
-               'parse as a pattern (the pure-AST route refuses); the same through a coercing put',
+    'C19-F9': ('a keyword / default named `_` that follows a positional element (`f(a, _=v)`, arguments `a, _=1`, _arglikes `a, _=v`) '
+               'coerced to a class pattern on the formatted route gives `C(a, _=v)`, which CPython\'s pattern grammar rejects '
+               '(`C(_=v)` alone is accepted): the returned source does not parse as a pattern (the pure-AST route refuses); the same '
+               'through a coercing put. Kept: refusing it would special-case a grammar quirk in 6 places',
                'C19|Call->pattern|x15/fst|no-parse'),
     'C19-F10': ('_type_params -> _arglikes on the formatted route keeps the element order: `**P, T` / `**P, *Ts` become `**P, T` / '
                 '`**P, *Ts` argument lists, which are not valid call arguments (returned source does not parse as _arglikes)',
                 'C19|_type_params->_arglikes|x35/fst|no-parse'),
+}
+
+
+# repaired by fixes/C19-<id>.diff: kind "fixed", witness kept (it must pass on replay)
+FIXED = {
+    'C19-F3': {'kind': 'Dict', 'si': 's9', 'pmode': 'Dict', 'src': '{...: a}', 'target': 'pattern', 'route': 'fst', 'class': 'no-parse'},
+    'C19-F4': {'kind': 'BinOp', 'si': 's10', 'pmode': 'BinOp', 'src': '[(a).b] | [x]', 'target': 'pattern', 'route': 'fst', 'class': 'positions'},
+    'C19-F5': {'kind': 'Interactive', 'si': 's2', 'pmode': 'single', 'src': 'a; b', 'target': 'exec', 'route': 'ast', 'class': 'leaves'},
+    'C19-F6': {'kind': 'arguments', 'si': 's4', 'pmode': 'arguments', 'src': 'a=1', 'target': 'keyword', 'route': 'ast', 'class': 'operand-mutated'},
+    'C19-F7': {'kind': 'MatchOr', 'si': 's7', 'pmode': 'pattern', 'src': '(a)|b|c', 'target': 'expr', 'route': 'fst', 'class': 'positions'},
+    'C19-F8': {'kind': 'Call', 'si': 's12', 'pmode': 'Call', 'src': '(f)(a)', 'target': 'pattern', 'route': 'fst', 'class': 'no-parse'},
 }
 
 
@@ -106,14 +118,18 @@ def main():
     for k0 in EK:
         for t in ['pattern', 'List', 'Tuple', 'Set', '_arglikes']:
             sigs['C19-F1'].append(f'C19|{k0}->{t}|generated/both|fmt!=pure(MatchOr nesting)')
-            sigs['C19-F4'].append(f'C19|{k0}->{t}|generated/fst|positions')
-        sigs['C19-F8'].append(f'C19|{k0}->pattern|generated/fst|no-parse')
     for k0 in PK:
         for t in ['expr', 'List', 'Tuple', '_arglikes']:
             sigs['C19-F2'].append(f'C19|{k0}->{t}|generated/both|fmt!=pure(Tuple vs List)')
-            sigs['C19-F7'].append(f'C19|{k0}->{t}|generated/fst|positions')
     out = []
     for k, (what, canon) in F.items():
+        if k in FIXED:
+            if sigs.get(k):
+                print('STILL FAILING although listed as fixed:', k, sigs[k][:3])
+            out.append({'id': k, 'property': 'C19', 'kind': 'fixed', 'commit': '<to be filled by me>', 'what': what,
+                        'record': f'fixed: property=C19 <commit> {what}', 'witness': FIXED[k]})
+            print(k, 'fixed')
+            continue
         if k not in wit:
             print('NO WITNESS for', k, canon)
         out.append({'id': k, 'property': 'C19', 'kind': 'known', 'signatures': sorted(set(sigs[k])), 'what': what,
